@@ -143,7 +143,38 @@ def correspond(ctx, n=None):
     )
 
 
+def diagnose():
+    """which recorded table / enum / fingerprint differs from today's regenerated one (text comparison of the two Coq files);
+    printed when an obligation of props/C02.v no longer checks, so that the report names what changed"""
+    def rows(path, start):
+        t = open(path).read().split(start)[1].split('\n].')[0]
+        out = {}
+        for line in t.split(';\n'):
+            m = re.match(r'\s*\("([^"]+)", ', line)
+            if m:
+                out[m.group(1)] = re.sub(r'\s+', ' ', line.strip())
+        return out
+    gen = os.path.join(C.COQ, 'gen', 'SchemaGen.v')
+    rec = os.path.join(C.COQ, 'theories', 'LedgerTables.v')
+    diff = {}
+    try:
+        a, b = rows(gen, 'Definition enc_schema : Codec.schema := ['), rows(rec, 'Definition expected : schema := [')
+        diff['class_tables'] = sorted(k for k in b if a.get(k) != b[k])
+        a, b = rows(gen, 'Definition enum_values : list (string * list (string * Z)) := ['), rows(rec, 'Definition expected_enums : list (string * list (string * Z)) := [')
+        diff['enums'] = sorted(k for k in b if a.get(k) != b[k])
+        a, b = rows(gen, 'Definition fingerprints : list (string * string) := ['), rows(rec, 'Definition known_enc_fingerprints : list (string * string) := [')
+        diff['source_fingerprints'] = sorted(k for k in b if a.get(k) != b[k])
+    except Exception as e:
+        diff['error'] = f'{type(e).__name__}: {e}'
+    return diff
+
+
 def search(ctx, mism):
+    d = diagnose()
+    if any(d.values()):
+        print('C02 obligations: recorded vs regenerated differ in', json.dumps(d))
+        os.makedirs(os.path.join(C.WORK, PID), exist_ok=True)
+        json.dump(d, open(os.path.join(C.WORK, PID, 'diagnosis.json'), 'w'), indent=1)
     ctx.rng.seed(f'search-{ctx.seed}')
     r = correspond(ctx, 3000 if ctx.quick else 40000)
     return r['oracle_fail'][0] if r['oracle_fail'] else None
